@@ -181,6 +181,9 @@ def run(prog, rep):
         for cls, sv in (("InflowDrivenDSM", None), ("StockDrivenDSM", "manual"), ("StockDrivenDSM", "lapack")):
             for h in ("CPC", "CPDC"):
                 jobs.append(("history", dict(fx, **({"solver": sv} if sv else {})), cls, h))
+    for dist in ("NormalLifetime", "FixedLifetime"):
+        for which in ("sf", "pdf"):
+            jobs.append(("setting-failure", dict(n_t=3, labels=(), dist=dist, over="number", read=which)))
     for h in SC.histories(rep.tier, False):
         jobs.append(("history", dict(n_t=3, labels=("a",), dist="NormalLifetime", over="all", n_pts=1, inflow_at="middle"), "SimpleFlowDrivenStock", h))
     run_stock_property(prog, rep, "C17", jobs, {"recompute": "C17.recompute-equals-fresh"})
